@@ -415,7 +415,7 @@ pub fn formats() -> Vec<String> {
         v.push(format!("%0_{d}"));
         v.push(format!("%-^{d}"));
     }
-    for s in ["%Q", "%é", "%😀", "%-5Q", "%_é x", "%", "%5", "%-", "%E", "%^", "abc%", "%Y-%m-%dT%H:%M:%S%:z", "%a, %d %b %Y %T %z", "%A %B %-d, %Y at %l:%M %p", "%s.%L", "%j/%U/%W/%V/%G", "%%%Y%%", "%10N|%3N|%1L", "é%dé", "%:", "%::", "%:a", "%f", "%i", "%J", "%K", "%q", "%o", "%E5"] {
+    for s in ["%Q", "%é", "%😀", "%-5Q", "%_é x", "%", "%5", "%-", "%E", "%^", "abc%", "%Y-%m-%dT%H:%M:%S%:z", "%a, %d %b %Y %T %z", "%A %B %-d, %Y at %l:%M %p", "%s.%L", "%j/%U/%W/%V/%G", "%%%Y%%", "%10N|%3N|%1L", "é%dé", "%:", "%::", "%:a", "%:é", "%::日", "%H%:ü%M", "%-:é", "%5:é", "%f", "%i", "%J", "%K", "%q", "%o", "%E5"] {
         v.push(s.to_string());
     }
     v
